@@ -8,10 +8,10 @@ Import ListNotations.
 Open Scope Z_scope.
 
 Definition params_permitted (u : universe) (f : fdecl) (b : builder) : bool :=
-  forallb (fun fld => match b_fin b with Some flt => flt_ok u flt (f_ty fld) | None => true end) (fn_in f).
+  forallb (fun fld => match b_fin b with Some flt => flt_okv u flt (f_name fld) (f_ty fld) (f_sub fld) | None => true end) (fn_in f).
 
 Definition outputs_permitted (u : universe) (f : fdecl) (bo : builder) : bool :=
-  match b_fout bo with Some flt => forallb (fun fld => flt_ok u flt (f_ty fld)) (fn_out f) | None => true end.
+  match b_fout bo with Some flt => forallb (fun fld => flt_okv u flt (f_name fld) (f_ty fld) (f_sub fld)) (fn_out f) | None => true end.
 
 (* On the property's domain, from a fresh world and for EVERY order tape: if no
    output is rejected by the output filter and every parameter of the target
